@@ -197,9 +197,47 @@ impl Property for C15Prop {
 
 pub fn run(session: &Session) -> i32 {
     crate::engine::run_regressions(session, &C15);
+    // unions nested under one another through every constructor, three and four levels deep, and
+    // unions of 2 to 12 members (alone and nested): each in 4 source orders
+    let wrap = |k: usize, x: &str| match k % 6 {
+        0 => format!("[{x}]"),
+        1 => format!("({x}, int)"),
+        2 => format!("mut ({x})"),
+        3 => format!("struct{{a: {x}, b: float}}"),
+        4 => format!("()->({x})"),
+        _ => format!("({x})->int"),
+    };
+    let mut cases = vec![];
+    for w1 in 0..6 {
+        for w2 in 0..6 {
+            let u1 = format!("{}|float", wrap(w1, "int|string"));
+            let u2 = format!("{}|bool", wrap(w2, &u1));
+            for rot in 0..4 {
+                cases.push(json!({"ty": u2, "rot": rot}));
+            }
+            for w3 in 0..6 {
+                let u3 = format!("{}|()", wrap(w3, &u2));
+                cases.push(json!({"ty": u3, "rot": w1 + w2 + w3}));
+                cases.push(json!({"ty": format!("{}|string", wrap(w3, &format!("{}|[float]", wrap(w2, &format!("{}|int", wrap(w1, "struct{p: int, q: string}|bool")))))), "rot": w1 + 2 * w3}));
+            }
+        }
+    }
+    let members = ["int", "float", "string", "bool", "()", "[int]", "[string]", "(int, int)", "mut int", "struct{a: int}", "()->int", "[[float]]"];
+    for n in 2..=members.len() {
+        let u = members[..n].join("|");
+        for rot in 0..4 {
+            cases.push(json!({"ty": u, "rot": rot}));
+            cases.push(json!({"ty": format!("[{u}]|mut ({u})"), "rot": rot}));
+            cases.push(json!({"ty": format!("({u})->({u})"), "rot": rot}));
+        }
+    }
+    session.set_extra("enumerated_nesting_cases", json!(cases.len()));
+    if !session.stopped() {
+        session.run_enum(&C15, cases);
+    }
     session.run_tapes(&C15, session.tier.of(40_000, 2_000_000), 120, 0);
     session.finish(
-        "types from a universe closed under every constructor to depth 3 (quick) / 4 (thorough); each type is realised as 4-5 instances (parsed from texts with union members and struct fields in different orders, rebuilt with `|`), each instance is printed and re-parsed: the whole printed text must parse as one type (checked with the grammar's type rule), to the same structure, `==` to the instance, and all instances must be `==`; types with a default value also go through the run-time type filter `it ? T`, which prints and re-parses T internally. Non-trivial = a union nested under a function result/parameter, mut, array, tuple or struct field; distinct by type text.",
+        "types from a universe closed under every constructor to depth 3 (quick) / 4 (thorough); each type is realised as 4-5 instances (parsed from texts with union members and struct fields in different orders, rebuilt with `|`), each instance is printed and re-parsed: the whole printed text must parse as one type (checked with the grammar's type rule), to the same structure, `==` to the instance, and all instances must be `==`; types with a default value also go through the run-time type filter `it ? T`, which prints and re-parses T internally. An enumerated family nests unions under one another through every constructor three and four levels deep and sweeps unions of 2-12 members. Non-trivial = a union nested under a function result/parameter, mut, array, tuple or struct field; distinct by type text.",
         false,
         &["print orders depend on per-instance hash keys chosen by std; several instances per type sample them"],
     )
